@@ -186,6 +186,10 @@ def register(R, tier="quick"):
     def rfn(tier_, seed):
         out = run_native("results_bounded.py", [600 if tier_ == "quick" else 12000, seed, 16])
         for f in out.get("failures", []):
+            if f.get("corpus") is None:
+                f["snippet"] = ("import runpy, sys\nsys.argv = ['results_bounded.py', '--deterministic']\n"
+                                "runpy.run_path(%r, run_name='__main__')\n" % os.path.join(ROOT, "bounded", "results_bounded.py"))
+                continue
             f["snippet"] = ("import runpy, sys\nsys.argv = ['results_bounded.py', '--corpus', %r]\n"
                             "runpy.run_path(%r, run_name='__main__')\n"
                             % (json.dumps(f["corpus"]), os.path.join(ROOT, "bounded", "results_bounded.py")))
